@@ -10,6 +10,7 @@ from typing import Dict, List, Optional, Set, Tuple
 from ..core import Unrecognised, NotConstant, call_name, calls_in, dotted, enclosing_def, facts, fold, module_of, parent, qual, site, src, template, walk_local, Slot
 from ..formulas import LANG, QUANT_FIELDS, expand_classes, formula_classes, if_chain, isinstance_classes
 from ..listener import ContextModel, annotated_contexts
+from . import c17
 
 Z3H = "src/isla/z3_helpers.py"
 G4 = "src/isla/IslaLanguage.g4"
@@ -440,6 +441,8 @@ def run(ctx) -> str:
     ctx.guarded("U6", lambda: rule_u6(ctx))
     ctx.guarded("U7", lambda: rule_u7(ctx))
     ctx.guarded("U8", lambda: rule_u8(ctx, box.get("m") or {}))
+    # SMT string literals: non-ASCII escaping before Z3 parsing, unicode unescape of literal values, self-escaped escape character (shared with C17)
+    ctx.guarded("U9", lambda: c17.rule_s5(ctx, "U9"))
     ctx.assume("generated parser/lexer files under src/isla/isla_language are in sync with IslaLanguage.g4 (literalNames cross-checked)")
     ctx.assume("ANTLR runtime member names are read from the installed antlr4 package sources")
     return EXPLANATION
